@@ -260,22 +260,12 @@ theorem parseRule_databases (cfg : Shard) (b : BaseRule) (h : parseRule cfg = .o
         · exact absurd hm hmy
         · exact absurd hm hgl
 
-theorem useNamespaceSlices_fields (names : List Str) (b : BaseRule) :
-    (useNamespaceSlices names b).db = b.db ∧ (useNamespaceSlices names b).table = b.table ∧
-    (useNamespaceSlices names b).ruleType = b.ruleType ∧
-    (useNamespaceSlices names b).subTableIndexes = b.subTableIndexes ∧
-    (useNamespaceSlices names b).tableToSlice = b.tableToSlice ∧
-    (useNamespaceSlices names b).shard = b.shard ∧
-    (useNamespaceSlices names b).slices = (if rtOf b.ruleType = .global then names else b.slices) := by
-  unfold useNamespaceSlices
-  split <;> simp_all
-
 /-! ### the loops of NewRouter carry a property of every parsed rule to every stored rule -/
 
 theorem routerRulesLoop_all (P : BaseRule → Prop) (names : List Str) :
     ∀ (shards linked : List Shard) (rules : RuleMap) (linked' : List Shard) (rules' : RuleMap),
       (∀ s ∈ shards, s.slices.all (includeSlice names) = true → ∀ b, parseRule s = .ok b →
-          P (useNamespaceSlices names b)) →
+          P b) →
       (∀ kv ∈ rules, P kv.2.target) →
       routerRulesLoop names shards linked rules = .ok (linked', rules') →
       ∀ kv ∈ rules', P kv.2.target
@@ -285,7 +275,7 @@ theorem routerRulesLoop_all (P : BaseRule → Prop) (names : List Str) :
   | s :: rest, linked, rules, linked', rules', hs, hr, h => by
     unfold routerRulesLoop at h
     have hrest : ∀ s' ∈ rest, s'.slices.all (includeSlice names) = true → ∀ b, parseRule s' = .ok b →
-        P (useNamespaceSlices names b) := fun s' hs' => hs s' (List.mem_cons_of_mem _ hs')
+        P b := fun s' hs' => hs s' (List.mem_cons_of_mem _ hs')
     split at h
     · cases h
     · next hinc =>
@@ -337,7 +327,7 @@ theorem routerLinkedLoop_all (P : BaseRule → Prop) :
 
 theorem newRouter_all (P : BaseRule → Prop) (n : Namespace) (r : Router)
     (hP : ∀ s ∈ n.shardRules, s.slices.all (includeSlice (sliceNames n)) = true → ∀ b, parseRule s = .ok b →
-        P (useNamespaceSlices (sliceNames n) b))
+        P b)
     (h : newRouter n = .ok r) : ∀ kv ∈ r.rules, P kv.2.target := by
   unfold newRouter at h
   split at h
